@@ -38,8 +38,15 @@ void *
 memchr(const void *s, int c, size_t n) {
 	__CPROVER_assert(n == 0 || __CPROVER_r_ok(s, n), "memchr: span readable");
 	__CPROVER_assume(n == 0 || __CPROVER_r_ok(s, n));
-	if (n == 0 || nondet_bool())
+	if (n == 0 || nondet_bool()) {
+#ifdef VF_HTTP_GHOST_K
+		/* "NULL = no occurrence", instantiated at the ghost offset vf_k */
+		size_t vf_o0 = (size_t)__CPROVER_POINTER_OFFSET(s);
+		if (n != 0 && vf_k >= vf_o0 && vf_k - vf_o0 < n)
+			__CPROVER_assume(((const unsigned char *)s)[vf_k - vf_o0] != (unsigned char)c);
+#endif
 		return (NULL);
+	}
 	size_t k = nondet_size_t();
 	__CPROVER_assume(k < n);
 	__CPROVER_assume(((const unsigned char *)s)[k] == (unsigned char)c);
@@ -61,8 +68,16 @@ memmem(const void *h, size_t hn, const void *nd, size_t nn) {
 	__CPROVER_assert(nn == 0 || __CPROVER_r_ok(nd, nn), "memmem: needle readable");
 	__CPROVER_assume(hn == 0 || __CPROVER_r_ok(h, hn));
 	__CPROVER_assume(nn == 0 || __CPROVER_r_ok(nd, nn));
-	if (nn > hn || nondet_bool())
+	if (nn > hn || nondet_bool()) {
+#ifdef VF_HTTP_GHOST_K
+		/* "NULL = no occurrence" of a 2-byte needle, instantiated at the ghost offset vf_k */
+		size_t vf_o0 = (size_t)__CPROVER_POINTER_OFFSET(h);
+		if (nn == 2 && hn >= 2 && vf_k >= vf_o0 && vf_k - vf_o0 < hn - 1)
+			__CPROVER_assume(!(((const unsigned char *)h)[vf_k - vf_o0] == ((const unsigned char *)nd)[0] &&
+			    ((const unsigned char *)h)[vf_k - vf_o0 + 1] == ((const unsigned char *)nd)[1]));
+#endif
 		return (NULL);
+	}
 	size_t k = nondet_size_t();
 	__CPROVER_assume(k <= hn - nn);
 	if (nn != 0) {
